@@ -4,6 +4,7 @@ import (
 	"context"
 	"net/http"
 	"runtime"
+	"strings"
 	"sync"
 	"sync/atomic"
 	"time"
@@ -95,7 +96,8 @@ func (w *verifConn) Header() http.Header { return w.hdr }
 func (w *verifConn) commit(code int) {
 	if len(w.codes) == 0 {
 		if vv := w.hdr["X-Verif"]; len(vv) > 0 {
-			w.sentHV, w.sentHas = vv[0], true
+			// every value of the header, in order (a multi-valued header such as Set-Cookie or Vary)
+			w.sentHV, w.sentHas = strings.Join(vv, "|"), true
 		}
 	}
 	w.codes = append(w.codes, code)
@@ -112,7 +114,7 @@ func (w *verifConn) Write(p []byte) (int, error) {
 const (
 	verifOpStatus = iota // WriteHeader(code)
 	verifOpWrite         // Write(data)
-	verifOpHeader        // Header().Set("X-Verif", hv)
+	verifOpHeader        // Header().Set("X-Verif", hv) and Add("X-Verif", "+"+hv): two values under one key
 	verifOpPanic         // panic
 )
 
@@ -165,6 +167,7 @@ func (s *verifScript) ServeHTTP(w http.ResponseWriter, r *http.Request) {
 			s.wserved = append(s.wserved, served)
 		case verifOpHeader:
 			w.Header().Set("X-Verif", op.hv)
+			w.Header().Add("X-Verif", "+"+op.hv) // a second value under the same key
 		case verifOpPanic:
 			panic("handler panicked")
 		}
@@ -199,7 +202,7 @@ func (s *verifScript) reference(recovered bool) (status int, body []byte, hv str
 				// set after the status went out: net/http would not send it; nothing is claimed
 				hvComparable = false
 			} else {
-				hv, hasHV = op.hv, true
+				hv, hasHV = op.hv+"|+"+op.hv, true
 			}
 		}
 	}
